@@ -17,6 +17,7 @@ import (
 	dbm "github.com/cosmos/cosmos-db"
 	"github.com/cosmos/cosmos-sdk/baseapp"
 	"github.com/cosmos/cosmos-sdk/codec"
+	"github.com/cosmos/cosmos-sdk/crypto/keys/ed25519"
 	"github.com/cosmos/cosmos-sdk/crypto/keys/secp256k1"
 	"github.com/cosmos/cosmos-sdk/testutil/mock"
 	simtestutil "github.com/cosmos/cosmos-sdk/testutil/sims"
@@ -169,7 +170,8 @@ func NewWorld(orbiterGenesisOverride json.RawMessage) (w *World, initErr error) 
 
 	// ---- genesis
 	gen := app.DefaultGenesis()
-	privVal := mock.NewPV()
+	// a fixed validator key: the world must be identical in every process (C19)
+	privVal := mock.PV{PrivKey: ed25519.GenPrivKeyFromSecret([]byte("orbverif-validator"))}
 	pubKey, err := privVal.GetPubKey()
 	must(err)
 	val := cmttypes.NewValidator(pubKey, 1)
@@ -230,6 +232,14 @@ func NewWorld(orbiterGenesisOverride json.RawMessage) (w *World, initErr error) 
 
 	ctx := app.BaseApp.NewUncachedContext(false, cmtproto.Header{Height: 2, ChainID: chainID, Time: time.Unix(1700000010, 0)})
 	ctx = ctx.WithEventManager(sdk.NewEventManager())
+
+	// Module accounts exist on a running chain (they are created on first use). Create them now:
+	// crediting the ADDRESS of a module account that does not exist yet makes the SDK create a
+	// plain account there, after which the module panics ("account is not a module account") -
+	// an SDK/app-configuration hazard outside the orbiter (recorded in DESIGN.md).
+	for _, name := range []string{"cctp", "warp", "hyperlane", "fiat-tokenfactory", "transfer", core.ModuleName, core.DustCollectorName} {
+		app.AccountKeeper.GetModuleAccount(ctx, name)
+	}
 
 	// ---- IBC channels and escrows
 	for i := 0; i < 2; i++ {
